@@ -1,4 +1,5 @@
 import TinsModel.Capture.Spec
+import TinsModel.Capture.Session
 import Driver.Util
 /- line-protocol driver for property C17: model mode (capture model) and spec mode (oracle on the implementation's
    output).  The op grammar is documented at the top of harness/c17_capture.cpp. -/
@@ -13,6 +14,7 @@ structure Ann where
   mo : Bool           -- pcap_offline_filter with len = caplen (what OfflinePacketFilter sees)
   outs : List (String × String)     -- class ↦ outcome text
   serThrow : Option String := none
+  xs : List Bool := []              -- per session filter (in `|f|` order): what a savefile-compiled program says
 
 def kvOf (ws : List String) (key : String) : Option String :=
   ws.findSome? (fun w => if w.startsWith (key ++ "=") then some ((w.drop (key.length + 1)).toString) else none)
@@ -37,7 +39,10 @@ def parseAnn (ws : List String) : Option Ann :=
           | c :: rest => some (c, "=".intercalate rest)
           | _ => none
         else none)
-      pure { ser := ser, adv := adv, m := m == "1", mo := mo == "1", outs := outs }
+      let xs := match kvOf ws "x" with
+        | none => []
+        | some t => if t == "-" then [] else t.toList.map (· == '1')
+      pure { ser := ser, adv := adv, m := m == "1", mo := mo == "1", outs := outs, xs := xs }
 
 /-- outcome text ↦ `POut` with the PDU represented by its canonical description -/
 def poutOf (s : String) : POut String :=
@@ -66,7 +71,8 @@ structure MState where
   tok : String := ""
   method : Method := .loop
   writing : Bool := false
-  ws : List Written := []                     -- in write order
+  recs : List Rec := []                       -- the open file behind the writer (`WriterSt`), in write order
+  pending : Option (List (Timeval × Item × Ann)) := none   -- elements collected for a `write(begin, end)`
   anns : List ((Bytes × Nat) × Ann) := []     -- keyed by (captured bytes, wire length)
   file : Option Bytes := none
 
@@ -174,6 +180,150 @@ def modelRead (st : MState) (ws : List String) : String :=
           | .stopped => fin (if isLoop then "returned" else "break")
           | .maxReached => fin "returned"
 
+/-! ### sessions: a script of calls on ONE live sniffer (`Capture/Session.lean`) -/
+
+/-- the `i`-th filter of the session line, by look-up of what libpcap's filter said about each frame -/
+def sessFilter (st : MState) (i : Nat) : Frame → Bool := fun f =>
+  match lookupAnn st f with
+  | some a => a.xs.getD i false
+  | none => false
+
+/-- `1.mal+3.nf` -/
+def parseIdxKind (s : String) : List (Nat × String) :=
+  if s == "-" || s == "" then [] else
+  (s.splitOn "+").filterMap (fun item => match item.splitOn "." with
+    | [i, k] => i.toNat?.map (fun n => (n, k))
+    | _ => none)
+
+def sideCfg (st : MState) (a : String) : Option Cfg :=
+  if a == "ss" then some .stopSniff
+  else if a == "r0" then some (.setRaw false)
+  else if a == "r1" then some (.setRaw true)
+  else if a == "fe" then some (.setFilter (some (fun _ => true)))
+  else if a.startsWith "f" then ((a.drop 1).toString.toNat?).map (fun k => Cfg.setFilter (some (sessFilter st k)))
+  else none
+
+/-- the scripted functor of the harness (`SessBody::run`): configuration calls first, then throw / stop / continue -/
+def sessFunctor (st : MState) (stop : Nat) (thr side : List (Nat × String)) : Functor String :=
+  fun hist _p =>
+    let i := hist.length
+    let cfgs := (side.filter (·.1 == i)).filterMap (fun e => sideCfg st e.2)
+    let out := match thr.find? (·.1 == i) with
+      | some (_, "mal") => CbOut.throw .malformedPacket
+      | some (_, "nf") => .throw .pduNotFound
+      | some (_, "oth") => .throw (.other "option_not_found")
+      | _ => if stop != 0 && i + 1 == stop then .stop else .continue_
+    (cfgs, out)
+
+/-- the harness's `drain`: `next_packet()` until it hands back no packet -/
+def sessDrain (parse : String → Bytes → POut String) :
+    Nat → Traced → List (String × Timestamp) → List (String × Timestamp) × NPOut String × Traced
+  | 0, t, acc => (acc, .null, t)
+  | fuel + 1, t, acc =>
+    match t.nextPacket parse with
+    | (.pkt p ts, t') => sessDrain parse fuel t' (acc ++ [(p, ts)])
+    | (o, t') => (acc, o, t')
+
+/-- one token of a session script: result text, state, whether the session is aborted (an exception came out of
+    `next_packet` through libpcap's frames) -/
+def sessTok (st : MState) (t : Traced) (curRaw : Bool) (tok : String) : String × Traced × Bool × Bool :=
+  let parse := parseOracle st
+  let fs := tok.splitOn ":"
+  let loopEnd := fun (name : String) (withTs : Bool) (exhausted stopped : String) (r : Ret String × Traced) =>
+    match r.1 with
+    | .loop e pkts =>
+      let ps := joinOr (pkts.map (showPkt withTs))
+      match e with
+      | .exhausted => (s!"{name}={ps}/{exhausted}", r.2, curRaw, false)
+      | .stopped => (s!"{name}={ps}/{stopped}", r.2, curRaw, false)
+      | .maxReached => (s!"{name}={ps}/returned", r.2, curRaw, false)
+      | .cbEscape x => (s!"{name}={ps}/escape:{x.name}", r.2, curRaw, false)
+      | .escape x => (s!"{name}={ps}/escape:{x.name}", r.2, curRaw, true)
+      | .fault i n => (s!"{name}={ps}/FAULT model read of byte {i} of {n}", r.2, curRaw, true)
+    | _ => ("model-error", r.2, curRaw, true)
+  -- the raw mode after the functor's own set_extract_raw_pdus calls (the harness tracks it for `mva`)
+  let rawAfter := fun (r : Ret String × Traced) => r.2.s.extractRaw
+  match fs with
+  | ["np"] =>
+    let r := t.call parse .nextPacket
+    match r.1 with
+    | .packet (.pkt p ts) => ("np=" ++ showPkt true (p, ts), r.2, curRaw, false)
+    | .packet .null => ("np=null", r.2, curRaw, false)
+    | .packet (.escape e) => ("np=escape:" ++ e.name, r.2, curRaw, true)
+    | .packet (.fault i n) => (s!"np=FAULT model read of byte {i} of {n}", r.2, curRaw, true)
+    | _ => ("model-error", r.2, curRaw, true)
+  | ["drain"] =>
+    let d := sessDrain parse (t.s.handle.frames.length + 2) t []
+    let ps := joinOr (d.1.map (showPkt true))
+    match d.2.1 with
+    | .escape e => (s!"drain={ps}/escape:{e.name}", d.2.2, curRaw, true)
+    | .fault i n => (s!"drain={ps}/FAULT model read of byte {i} of {n}", d.2.2, curRaw, true)
+    | _ =>
+      let again := d.2.2.nextPacket parse
+      match again.1 with
+      | .pkt _ _ => (s!"drain={ps}/eof-then-packet", again.2, curRaw, false)
+      | .null => (s!"drain={ps}/eof", again.2, curRaw, false)
+      | .escape e => (s!"drain={ps}/escape:{e.name}", again.2, curRaw, true)
+      | .fault i n => (s!"drain={ps}/FAULT model read of byte {i} of {n}", again.2, curRaw, true)
+  | "loop" :: mx :: stp :: thr :: kind :: side :: _ =>
+    let cb := sessFunctor st (stp.toNat?.getD 0) (parseIdxKind thr) (parseIdxKind side)
+    let r := t.call parse (.sniffLoop cb (mx.toNat?.getD 0))
+    let x := loopEnd "loop" (kind != "u") "returned" "returned" r
+    (x.1, x.2.1, rawAfter r, x.2.2.2)
+  | "iter" :: stp :: _pp :: side :: _ =>
+    let cb := sessFunctor st (stp.toNat?.getD 0) [] (parseIdxKind side)
+    let r := t.call parse (.rangeFor cb)
+    let x := loopEnd "iter" true "exhausted" "break" r
+    (x.1, x.2.1, rawAfter r, x.2.2.2)
+  | ["raw", v] => ("raw=ok", (t.call parse (.cfg (.setRaw (v == "1")))).2, v == "1", false)
+  | ["filt", i] =>
+    let f : Frame → Bool := if i == "e" then (fun _ => true) else sessFilter st (i.toNat?.getD 0)
+    let r := t.call parse (.cfg (.setFilter (some f)))
+    (match r.1 with | .flag true => "filt=1" | _ => "filt=0", r.2, curRaw, false)
+  | ["bad", _] =>
+    let r := t.call parse (.cfg (.setFilter none))
+    (match r.1 with | .flag true => "bad=1" | _ => "bad=0", r.2, curRaw, false)
+  | ["meth", m] =>
+    ("meth=ok", (t.call parse (.cfg (.setMethod (if m == "d" then .dispatch else if m == "x" then .exact else .loop)))).2,
+     curRaw, false)
+  | ["mvc"] => ("mvc=ok", (t.call parse .moveConstruct).2, curRaw, false)
+  | ["mva"] =>
+    -- the target is a second sniffer on the same file: fresh handle, the other raw mode, `pcap_loop`
+    let target : Sniffer := { handle := { t.s.handle with brk := false }, extractRaw := !curRaw, method := .loop }
+    ("mva=ok", (t.call parse (.moveAssignInto target)).2, curRaw, false)
+  | ["lt"] =>
+    (match (t.call parse .linkType).1 with | .linkType d => s!"lt={d}" | _ => "model-error", t, curRaw, false)
+  | ["ss"] => ("ss=ok", (t.call parse (.cfg .stopSniff)).2, curRaw, false)
+  | _ => ("bad-token", t, curRaw, false)
+
+def modelSession (st : MState) (ws : List String) : String :=
+  match st.file with
+  | none => "session open=nofile"
+  | some bytes =>
+  match openFile bytes with
+  | none => "session open=throw:pcap_error"
+  | some op =>
+    let init : Frame → Bool := match kvOf ws "init" with
+      | some "none" => fun _ => true
+      | none => fun _ => true
+      | some i => sessFilter st (i.toNat?.getD 0)
+    let t0 : Traced :=
+      { s := { handle := { dlt := op.dlt, frames := op.frames, err := op.err, filter := init, brk := false },
+               extractRaw := false, method := st.method }, log := [] }
+    let script := match kvOf ws "s" with
+      | none => []
+      | some sc => (sc.splitOn ",").filter (· != "")
+    let rec go (toks : List String) (t : Traced) (curRaw aborted : Bool) (acc : List String) : List String :=
+      match toks with
+      | [] => acc.reverse
+      | tok :: rest =>
+        if aborted then go rest t curRaw true ("aborted" :: acc)
+        else
+          let r := sessTok st t curRaw tok
+          go rest r.2.1 r.2.2.1 r.2.2.2 (r.1 :: acc)
+    let rs := go script t0 false false []
+    s!"session open=ok r={if rs.isEmpty then "-" else ";".intercalate rs} live=0"
+
 def modelOffline (st : MState) (_ws : List String) : String :=
   if !st.tok.startsWith "T:" then "offline unsupported-link-type-token" else
   match st.file with
@@ -187,41 +337,71 @@ def modelOffline (st : MState) (_ws : List String) : String :=
         | none => "?")
       "offline bits=" ++ (if bits.isEmpty then "-" else "".intercalate bits)
 
+/-- the writer's state behind `MState` -/
+def wst (st : MState) : WriterSt := { dlt := st.dlt, recs := st.recs }
+
 def step (st : MState) (line : String) : MState × String :=
-  let ws := words line
+  -- the filter texts after ` |f| ` are the harness's business; the model sees their verdicts in the annotations
+  let ws := words ((line.splitOn " |f| ").headD "")
   match ws with
   | "file" :: tok :: meth :: _ =>
     match dltOfToken tok with
     | none => (st, "bad-op")
     | some d => ({ dlt := d, tok := tok, method := methodOf meth, writing := true }, "file ok")
-  | "w" :: _how :: sec :: usec :: _hex :: rest =>
-    if !st.writing then (st, "w nowriter") else
+  | "read" :: rest => (st, modelRead st rest)
+  | "session" :: rest => (st, modelSession st rest)
+  | "offline" :: rest => (st, modelOffline st rest)
+  | opw :: _how :: sec :: usec :: _hex :: rest =>
+    if !(opw == "w" || opw == "wp" || opw == "wq" || opw == "wr-item") then (st, "bad-op") else
+    if opw == "wr-item" && st.pending.isNone then (st, "wr-item norange") else
+    if opw != "wr-item" && !st.writing then (st, opw ++ " nowriter") else
     match parseInt sec, parseInt usec, parseAnn rest with
     | some s, some u, some a =>
       match a.serThrow with
-      | some e => (st, "w throw:" ++ e)
+      | some e => (st, opw ++ " throw:" ++ e)
       | none =>
-        let w : Written := { ts := Timestamp.ofTimeval ⟨s, u⟩, ser := a.ser, adv := a.adv }
-        let r := writePacket w.ts w.ser w.adv
-        ({ st with ws := st.ws ++ [w], anns := ((r.data, r.len), a) :: st.anns }, "w ok")
+        let x : Item := { ser := a.ser, adv := a.adv }
+        if opw == "wr-item" then
+          ({ st with pending := some ((st.pending.getD []) ++ [(⟨s, u⟩, x, a)]) }, "wr-item ok")
+        else
+          -- `w`: write(Packet&) with Timestamp(timeval{s,u}); `wp` / `wq`: write(PDU&) / write(T&), clock reading = (s,u)
+          let c : WCall := if opw == "w" then .packet (Timestamp.ofTimeval ⟨s, u⟩) x else .pdu ⟨s, u⟩ x
+          let w' := ((wst st).call c).1
+          let r := w'.recs.getLast?.getD (writePdu ⟨s, u⟩ a.ser a.adv)
+          ({ st with recs := w'.recs, anns := ((r.data, r.len), a) :: st.anns }, opw ++ " ok")
     | _, _, _ => (st, "bad-op")
+  | ["wr-begin", _kind] => ({ st with pending := some [] }, "wr-begin ok")
+  | ["wr-end"] =>
+    match st.pending with
+    | none => (st, "wr-end norange")
+    | some items =>
+      if !st.writing then ({ st with pending := none }, "wr-end nowriter") else
+      let w' := ((wst st).call (.range (items.map (fun e => (e.1, e.2.1))))).1
+      let anns := items.map (fun e => let r := writePdu e.1 e.2.1.ser e.2.1.adv; ((r.data, r.len), e.2.2))
+      ({ st with recs := w'.recs, anns := anns.reverse ++ st.anns, pending := none }, s!"wr-end n={items.length}")
+  | ["wmv"] =>
+    if !st.writing then (st, "wmv nowriter") else
+    ({ st with recs := (((wst st).call .moveConstruct).1).recs }, "wmv ok")
+  | ["wma"] =>
+    if !st.writing then (st, "wma nowriter") else
+    let r := (wst st).call (.moveAssignInto (some { dlt := st.dlt, recs := [] }))
+    let other := match r.2 with | some o => toString o.close.length | none => "nofile"
+    ({ st with recs := r.1.recs }, s!"wma other={other} leak=0")
   | ["close"] =>
-    let bytes := writtenFile st.dlt st.ws
-    ({ st with writing := false, file := some bytes },
-     s!"close size={bytes.length} fnv={fnv bytes} snaplen={writerSnaplen} linktype={dltToLinktype st.dlt}")
+    let bytes := (wst st).close
+    ({ st with writing := false, file := some bytes, pending := none },
+     s!"close size={bytes.length} fnv={fnv bytes} snaplen={writerSnaplen} linktype={dltToLinktype st.dlt} wall=ok")
   | ["rotate"] =>
     if !st.writing then (st, "rotate nowriter") else
-    let bytes := writtenFile st.dlt st.ws
-    ({ st with writing := false, file := some bytes },
-     s!"rotate size={bytes.length} fnv={fnv bytes} snaplen={writerSnaplen} linktype={dltToLinktype st.dlt} leak=0")
+    let bytes := (wst st).close
+    ({ st with writing := false, file := some bytes, pending := none },
+     s!"rotate size={bytes.length} fnv={fnv bytes} snaplen={writerSnaplen} linktype={dltToLinktype st.dlt} leak=0 wall=ok")
   | ["chop", k] =>
     match st.file, k.toNat? with
     | some bytes, some k =>
       let n := bytes.length - k
       ({ st with file := some (bytes.take n) }, s!"chop size={n}")
     | _, _ => (st, "chop nofile")
-  | "read" :: rest => (st, modelRead st rest)
-  | "offline" :: rest => (st, modelOffline st rest)
   | _ => (st, "bad-op")
 
 /-! ## spec mode: the oracle, evaluated on the implementation's own output -/
@@ -237,6 +417,7 @@ structure OState where
   size : Nat := 0                   -- current size of the file (after chop)
   closed : Bool := false
   unspecified : Bool := true
+  pending : Option (List OFrame) := none     -- elements collected for a `write(begin, end)`
 
 def initSpec : OState := {}
 
@@ -384,6 +565,193 @@ def checkRead (st : OState) (ws : List String) (ow : List String) : String :=
             if first.length != k then s!"violates delivered-count got={first.length} want={k}" else "ok"
     | _, _, _, _, _ => "violates unparsable-output"
 
+/-! ### sessions: the property evaluated frame by frame under the configuration in force
+
+  The oracle keeps what the property text talks about: the frames of the file not yet reached, the raw mode, the
+  filter, whether `stop_sniff` was called since the last `next_packet`.  A pull (`next_packet`) hands back the first
+  frame, from the current position on, that the filter in force accepts and that parses under the mode in force;
+  after `stop_sniff` it hands back nothing once and reads nothing; at the end of the file it hands back nothing,
+  forever. -/
+
+structure SSt where
+  fr : List OFrame
+  raw : Bool := false
+  filt : Option Nat := none          -- index into the session's filters; `none` = every frame
+  brk : Bool := false
+
+inductive Pull where
+  | pkt (d : String) (ts : Option String)
+  | none_
+  | open_
+
+def sAccepts (s : SSt) (f : OFrame) : Bool :=
+  match s.filt with
+  | none => true
+  | some i => f.ann.xs.getD i false
+
+def sPull (dlt : Nat) (s : SSt) : Pull × SSt :=
+  if s.brk then (.none_, { s with brk := false }) else
+  let rec go (fs : List OFrame) : Pull × List OFrame :=
+    match fs with
+    | [] => (.none_, [])
+    | f :: rest =>
+      if !sAccepts s f then go rest else
+      match expectOf dlt s.raw f.ann with
+      | .pkt d => (.pkt d (expectTs f), rest)
+      | .skip => go rest
+      | .open_ => (.open_, rest)
+  let r := go s.fr
+  (r.1, { s with fr := r.2 })
+
+def sSide (s : SSt) (a : String) : SSt :=
+  if a == "ss" then { s with brk := true }
+  else if a == "r0" then { s with raw := false }
+  else if a == "r1" then { s with raw := true }
+  else if a == "fe" then { s with filt := none }
+  else if a.startsWith "f" then { s with filt := (a.drop 1).toString.toNat? }
+  else s
+
+/-- does the implementation's packet text `g` (`<ts>:<desc>`) show the expected packet -/
+def pktMatches (g : String) (d : String) (ts : Option String) : Bool :=
+  match g.splitOn ":" with
+  | t :: gdParts =>
+    let gd := ":".intercalate gdParts
+    gd == d && (match ts with | some x => t == x || t == "-" | none => true)
+  | _ => false
+
+def pktsMatch (got : List String) (want : List (String × Option String)) : Bool :=
+  got.length == want.length && (got.zip want).all (fun (g, (d, ts)) => pktMatches g d ts)
+
+inductive Verdict where
+  | ok | unspec | bad (why : String)
+
+/-- the loop of `sniff_loop` / a range-for, from the property text: the functor gets the packets one by one, in
+    order; it stops the loop by returning false, by an exception other than the two `sniff_loop` swallows, or when
+    `max` packets were handed over; nothing is read beyond the last packet handed over -/
+def sLoop (dlt : Nat) (isLoop : Bool) (mx stop : Nat) (thr side : List (Nat × String)) :
+    Nat → SSt → Nat → Nat → List (String × Option String) → Option (List (String × Option String) × String × SSt)
+  | 0, s, _, _, acc => some (acc, if isLoop then "returned" else "exhausted", s)
+  | fuel + 1, s, i, mx', acc =>
+    match sPull dlt s with
+    | (.open_, _) => none
+    | (.none_, s') => some (acc, if isLoop then "returned" else "exhausted", s')
+    | (.pkt d ts, s') =>
+      let acc' := acc ++ [(d, ts)]
+      let s'' := (side.filter (·.1 == i)).foldl (fun st e => sSide st e.2) s'
+      let thrown := if isLoop then (thr.find? (·.1 == i)).map (·.2) else none
+      if thrown == some "oth" then some (acc', "escape:option_not_found", s'')
+      else if thrown.isNone && stop != 0 && i + 1 == stop then some (acc', if isLoop then "returned" else "break", s'')
+      else if isLoop && mx' == 1 then some (acc', "returned", s'')
+      else sLoop dlt isLoop mx stop thr side fuel s'' (i + 1) (if mx' == 0 then 0 else mx' - 1) acc'
+
+def checkTok (dlt : Nat) (s : SSt) (tok got : String) : Verdict × SSt :=
+  let fs := tok.splitOn ":"
+  let (gname, gval) := match got.splitOn "=" with
+    | n :: rest => (n, "=".intercalate rest)
+    | [] => ("", "")
+  let fixed := fun (want : String) (s' : SSt) => (if got == want then Verdict.ok else .bad s!"{gname} {got}", s')
+  match fs with
+  | ["np"] =>
+    match sPull dlt s with
+    | (.open_, s') => (.unspec, s')
+    | (.none_, s') => (if got == "np=null" then .ok else .bad s!"session-frames-out np expected=null got={gval.take 40}", s')
+    | (.pkt d ts, s') =>
+      (if gname == "np" && pktMatches gval d ts then .ok else .bad s!"session-frames-out np got={gval.take 40}", s')
+  | ["drain"] =>
+    let rec pulls (fuel : Nat) (s : SSt) (acc : List (String × Option String)) : Option (List (String × Option String) × SSt) :=
+      match fuel with
+      | 0 => some (acc, s)
+      | fuel + 1 => match sPull dlt s with
+        | (.open_, _) => none
+        | (.none_, s') => some (acc, s')
+        | (.pkt d ts, s') => pulls fuel s' (acc ++ [(d, ts)])
+    match pulls (s.fr.length + 2) s [] with
+    | none => (.unspec, s)
+    | some (want, s') =>
+      -- one more call: the end of the file is sticky; a stop_sniff only interrupts once
+      match sPull dlt s' with
+      | (.open_, s'') => (.unspec, s'')
+      | (again, s'') =>
+        let marker := match again with | .pkt _ _ => "eof-then-packet" | _ => "eof"
+        match gval.splitOn "/" with
+        | [] => (.bad "unparsable-output", s'')
+        | parts =>
+          let e := parts.getLast!
+          let pk := "/".intercalate parts.dropLast
+          if e.startsWith "escape:" then (.bad s!"loop-no-escape {e}", s'')
+          else if gname != "drain" || !pktsMatch (splitItems pk) want then (.bad "session-frames-out drain", s'')
+          else if e != marker then (.bad s!"clean-end {e} expected={marker}", s'')
+          else (.ok, s'')
+  | "loop" :: mx :: stp :: thr :: _kind :: side :: _ =>
+    let m := mx.toNat?.getD 0
+    match sLoop dlt true m (stp.toNat?.getD 0) (parseIdxKind thr) (parseIdxKind side) (s.fr.length + 1) s 0 m [] with
+    | none => (.unspec, s)
+    | some (want, e, s') =>
+      let parts := gval.splitOn "/"
+      let ge := parts.getLast!
+      let pk := "/".intercalate parts.dropLast
+      if ge.startsWith "escape:" && ge != e then (.bad s!"loop-no-escape {ge}", s')
+      else if gname != "loop" || (splitItems pk).length != want.length then
+        (.bad s!"delivered-count got={(splitItems pk).length} want={want.length}", s')
+      else if !pktsMatch (splitItems pk) want then (.bad "session-frames-out loop", s')
+      else if ge != e then (.bad s!"loop-end {ge} expected={e}", s')
+      else (.ok, s')
+  | "iter" :: stp :: _pp :: side :: _ =>
+    match sLoop dlt false 0 (stp.toNat?.getD 0) [] (parseIdxKind side) (s.fr.length + 1) s 0 0 [] with
+    | none => (.unspec, s)
+    | some (want, e, s') =>
+      let parts := gval.splitOn "/"
+      let ge := parts.getLast!
+      let pk := "/".intercalate parts.dropLast
+      if ge.startsWith "escape:" then (.bad s!"loop-no-escape {ge}", s')
+      else if gname != "iter" || (splitItems pk).length != want.length then
+        (.bad s!"delivered-count got={(splitItems pk).length} want={want.length}", s')
+      else if !pktsMatch (splitItems pk) want then (.bad "session-frames-out iter", s')
+      else if ge != e then (.bad s!"loop-end {ge} expected={e}", s')
+      else (.ok, s')
+  | ["raw", v] => fixed "raw=ok" { s with raw := v == "1" }
+  | ["filt", i] => fixed "filt=1" { s with filt := if i == "e" then none else i.toNat? }
+  | ["bad", _] =>
+    -- what is not a filter expression must be refused and must leave the installed filter alone
+    (if got == "bad=0" then .ok else .bad s!"invalid-filter-accepted {got}", s)
+  | ["meth", _] => fixed "meth=ok" s
+  | ["mvc"] => fixed "mvc=ok" s                      -- a moved sniffer goes on where the old one was
+  | ["mva"] => fixed "mva=ok" s
+  | ["lt"] => fixed s!"lt={dlt}" s
+  | ["ss"] => fixed "ss=ok" { s with brk := true }
+  | _ => (.unspec, s)
+
+def checkSession (st : OState) (ws : List String) (ow : List String) : String :=
+  match specDlt st.tok with
+  | none => "unspecified"
+  | some dlt =>
+  match kvOf ow "open" with
+  | none => "violates unparsable-output"
+  | some opn =>
+    if st.size < 24 then (if opn.startsWith "throw:" then "ok" else "violates open-of-headerless-file")
+    else if opn != "ok" then s!"violates open {opn}"
+    else
+    match kvOf ow "r", kvOf ow "live" with
+    | some r, some live =>
+      let (fr, _) := survivors st
+      let script := match kvOf ws "s" with
+        | none => []
+        | some sc => (sc.splitOn ",").filter (· != "")
+      let got := if r == "-" then [] else r.splitOn ";"
+      if got.length != script.length then "violates unparsable-output" else
+      let s0 : SSt := { fr := fr, filt := match kvOf ws "init" with | some "none" => none | none => none | some i => i.toNat? }
+      let rec go (ps : List (String × String)) (s : SSt) : String :=
+        match ps with
+        | [] => if live != "0" then s!"violates pdu-leak live={live}" else "ok"
+        | (tok, g) :: rest =>
+          if g == "aborted" then "violates loop-no-escape aborted" else
+          match checkTok dlt s tok g with
+          | (.ok, s') => go rest s'
+          | (.unspec, _) => "unspecified"
+          | (.bad why, _) => s!"violates {why}"
+      go (script.zip got) s0
+    | _, _ => "violates unparsable-output"
+
 def checkOffline (st : OState) (ow : List String) : String :=
   match ow with
   | ["offline", b] =>
@@ -401,22 +769,53 @@ def checkOffline (st : OState) (ow : List String) : String :=
 def specStep (st : OState) (line : String) : OState × String :=
   match line.splitOn " ||| " with
   | [op, out] =>
-    let ws := words op
+    let ws := words ((op.splitOn " |f| ").headD "")
     let ow := words out
     match ws with
     | "file" :: tok :: _ =>
       let st' : OState := { tok := tok, unspecified := false }
       (st', if ow == ["file", "ok"] then "ok" else "violates writer-open")
-    | "w" :: _how :: sec :: usec :: _hex :: rest =>
+    | "read" :: rest =>
+      if st.unspecified || !st.closed then (st, "unspecified") else (st, checkRead st rest ow)
+    | "session" :: rest =>
+      if st.unspecified || !st.closed then (st, "unspecified") else (st, checkSession st rest ow)
+    | "offline" :: _ =>
+      if st.unspecified || !st.closed then (st, "unspecified") else (st, checkOffline st ow)
+    | opw :: _how :: sec :: usec :: _hex :: rest =>
+      if !(opw == "w" || opw == "wp" || opw == "wq" || opw == "wr-item") then (st, "unspecified") else
       if st.unspecified then (st, "unspecified") else
       match parseInt sec, parseInt usec, parseAnn rest with
       | some s, some u, some a =>
         match a.serThrow with
         | some _ => (st, "unspecified")              -- the serializer refused: not a C17 matter
         | none =>
-          if ow == ["w", "ok"] then ({ st with frames := st.frames ++ [⟨s, u, a⟩] }, "ok")
+          if opw == "wr-item" then
+            match st.pending with
+            | none => (st, "unspecified")
+            | some ps =>
+              if ow == ["wr-item", "ok"] then ({ st with pending := some (ps ++ [⟨s, u, a⟩]) }, "ok")
+              else ({ st with unspecified := true }, "unspecified")
+          else if ow == [opw, "ok"] then ({ st with frames := st.frames ++ [⟨s, u, a⟩] }, "ok")
           else ({ st with unspecified := true }, s!"violates write {" ".intercalate ow}")
       | _, _, _ => ({ st with unspecified := true }, "unspecified")
+    | ["wr-begin", _] => if st.unspecified then (st, "unspecified") else ({ st with pending := some [] }, "ok")
+    | ["wr-end"] =>
+      if st.unspecified then (st, "unspecified") else
+      match st.pending with
+      | none => (st, "unspecified")
+      | some ps =>
+        -- every element of [begin, end) is written, in order
+        let st' := { st with frames := st.frames ++ ps, pending := none }
+        if ow == ["wr-end", s!"n={ps.length}"] then (st', "ok")
+        else ({ st' with unspecified := true }, s!"violates write-range {" ".intercalate ow}")
+    | ["wmv"] =>
+      if st.unspecified then (st, "unspecified") else
+      (st, if ow == ["wmv", "ok"] then "ok" else s!"violates writer-move {" ".intercalate ow}")
+    | ["wma"] =>
+      if st.unspecified then (st, "unspecified") else
+      -- the file the target was writing is complete (a header, no record) and nothing leaks
+      (st, if kvOf ow "other" == some "24" && kvOf ow "leak" == some "0" then "ok"
+           else s!"violates writer-move {" ".intercalate ow}")
     | [closeOp] =>
       if closeOp != "close" && closeOp != "rotate" then (st, "unspecified") else
       if st.unspecified then (st, "unspecified") else
@@ -430,16 +829,13 @@ def specStep (st : OState) (line : String) : OState × String :=
         else if (specDlt st.tok).map specLinktype != some lt then (st', s!"violates file-linktype got={lt}")
         else if st.frames.any (fun f => f.ann.ser.length > snap) then
           (st', s!"violates file-snaplen declared={snap}")
+        else if kvOf ow "wall" != some "ok" then (st', s!"violates wall-clock-stamp {(kvOf ow "wall").getD "?"}")
         else (st', "ok")
       | _, _, _ => (st', "violates unparsable-output")
     | ["chop", k] =>
       match k.toNat? with
       | some k => ({ st with size := st.size - k }, "ok")
       | none => (st, "unspecified")
-    | "read" :: rest =>
-      if st.unspecified || !st.closed then (st, "unspecified") else (st, checkRead st rest ow)
-    | "offline" :: _ =>
-      if st.unspecified || !st.closed then (st, "unspecified") else (st, checkOffline st ow)
     | _ => (st, "unspecified")
   | _ => (st, "bad-line")
 
